@@ -7,6 +7,7 @@ Oracle: decrypted client stream == header + body the handler returned, then EOF.
 from __future__ import annotations
 
 import hashlib
+import asyncio
 import os
 import shutil
 import struct
@@ -37,6 +38,7 @@ def setup(ctx):
     ctx.require("monitor", "l3_streams_compared", 8)
     ctx.require("monitor", "stalled_reader_streams", 10)
     ctx.require("monitor", "at_limit_streams", 8)
+    ctx.require("monitor", "l2_late_client_bytes_while_answering", 10)
     ctx.require("monitor", "static_files_with_special_text", 8)
     ctx.require("backend", "pyopenssl", 10)
     ctx.require("backend", "stdlib", 10)
@@ -159,7 +161,7 @@ def run_l2(ctx):
                     body = text_body(n, rng)
                     exp_body = body.encode("utf-8")
                     meta = "text/gemini"
-                mode = ("sync", "async")[idx % 2]
+                mode = ("sync", "async", "sync", "async-slow+late-client-bytes")[idx % 4]
 
                 def handler(req, body=body, meta=meta, mode=mode):
                     r = GeminiResponse(status=20, meta=meta, body=body)
@@ -167,6 +169,10 @@ def run_l2(ctx):
                         return r
 
                     async def co():
+                        if mode.startswith("async-slow"):
+                            # the response takes a virtual second; meanwhile the client sends more (a blank line,
+                            # a second request line): the answer to THE request must still arrive unaltered
+                            await asyncio.sleep(1.0)
                         return r
 
                     return co()
@@ -186,6 +192,10 @@ def run_l2(ctx):
                         continue
                     if not coalesce:
                         bench.client_send(req)
+                    if mode.startswith("async-slow"):
+                        loop.advance(0.25)
+                        bench.client_send(rng.choice([b"\r\n", b"gemini://localhost/other\r\n", b"x" * 40 + b"\r\n", b"\r\n\r\n"]))
+                        ctx.count("monitor", "l2_late_client_bytes_while_answering")
                     bench.finish()
                     expected = f"20 {meta}\r\n".encode() + exp_body
                     case = {"backend": backend, "len": n, "btype": btype, "source": "spy-" + mode, "cuts": cuts_kind, "coalesce": coalesce}
